@@ -245,6 +245,23 @@ fn nesting(st: &mut Stats) {
         let close: String = (0..d).rev().map(|i| if i % 2 == 0 { "]" } else { "}" }).collect();
         check_text(&mut s, "nesting-mixed", &format!("{}null{}", mixed, close), 256);
     }
+    // many sibling containers at depth 2: the depth counter must go down again when a container closes
+    for n in [2usize, 255, 256, 300] {
+        for (open, item, close) in [("[", "[]", "]"), ("[", "{}", "]"), ("[", "{\"a\":[]}", "]")] {
+            let body = vec![item; n].join(",");
+            check_text(&mut s, "sibling-containers", &format!("{}{}{}", open, body, close), 256);
+        }
+        for item in ["{}", "[]", "[{}]"] {
+            let body: Vec<String> = (0..n).map(|i| format!("\"k{}\":{}", i, item)).collect();
+            check_text(&mut s, "sibling-containers", &format!("{{{}}}", body.join(",")), 256);
+        }
+    }
+    for md in 1..4usize {
+        for item in ["{}", "[]", "{\"a\":{}}"] {
+            check_text(&mut s, "sibling-containers-small-limit", &format!("[{}]", vec![item; 5].join(",")), md);
+            check_text(&mut s, "sibling-containers-small-limit", &format!("{{\"a\":{},\"b\":{},\"c\":{}}}", item, item, item), md);
+        }
+    }
     // small explicit depth limits, exhaustively over bracket strings of length <= 8
     for md in 0..4usize {
         for w in crate::props::c05::words(&['[', ']', ',', '1'], 7) {
